@@ -152,6 +152,7 @@ type LoopSpec struct {
 	NoExit    bool     // the loop must run all its iterations: no return / panic / break from its body
 	Invariant []string // contract expressions
 	IterEmits []string // event patterns emitted by one iteration (nil = not constrained)
+	IterEnsures []string // properties of the events of one iteration (evaluated over that iteration's events only)
 	Name      string
 }
 
@@ -175,6 +176,8 @@ type Hooks struct {
 	EvalExpr func(x *Exec, st *State, expr string) (string, error)
 	// MatchIter checks the events of one loop iteration against the loop's IterEmits.
 	MatchIter func(x *Exec, st *State, ls *LoopSpec, evs []Event) string
+	// IterEnsures evaluates the loop's per-iteration properties over the events of one iteration.
+	IterEnsures func(x *Exec, st *State, ls *LoopSpec, evs []Event) []string
 }
 
 // CalleeSpec: how to treat a static callee.
@@ -205,6 +208,7 @@ type Exec struct {
 	loops      map[*ssa.Function]map[int]int // header block index -> ordinal
 	DryRun     bool
 	boxed      map[string]bool
+	initFacts  map[string][]string // typing facts of pre-state symbols, re-assumed on every path that meets them
 	NamedCells bool // heap-allocated named locals get their source name as heap key (closure cells)
 	unsupported []string
 }
@@ -352,11 +356,20 @@ func (x *Exec) load(st *State, key string, t types.Type, pos token.Pos) SVal {
 // initial returns the pre-state symbol of a heap key.
 func (x *Exec) initial(st *State, key string, t types.Type) SVal {
 	if v, ok := st.Init[key]; ok {
+		// the pre-state symbol was created on another path: its typing facts (lengths, unsignedness) hold here too
+		for _, a := range x.initFacts[key] {
+			st.assume(a)
+		}
 		return v
 	}
+	n := len(st.PC)
 	v := x.symbolic(st, key, t)
 	v.Src = key
 	st.Init[key] = v
+	if x.initFacts == nil {
+		x.initFacts = map[string][]string{}
+	}
+	x.initFacts[key] = append([]string{}, st.PC[n:]...)
 	return v
 }
 
@@ -649,6 +662,11 @@ func (x *Exec) block(st *State, b *ssa.BasicBlock, pred *ssa.BasicBlock, k Cont)
 			if ls.IterEmits != nil && x.H.MatchIter != nil {
 				g := x.H.MatchIter(x, st, ls, st.Events[mark:])
 				x.obl(st, ls.Name+"/iteration", g, "events of one iteration", b.Instrs[0].Pos())
+			}
+			if len(ls.IterEnsures) > 0 && x.H.IterEnsures != nil {
+				for i, g := range x.H.IterEnsures(x, st, ls, st.Events[mark:]) {
+					x.obl(st, fmt.Sprintf("%s/iteration-ensures#%d", ls.Name, i), g, ls.IterEnsures[i], b.Instrs[0].Pos())
+				}
 			}
 			// phis take their back-edge values for the invariant check
 			x.assignPhis(st, b, pred)
